@@ -255,6 +255,13 @@ def forced_recover_admin(R, env, prog, dctx, arm, rule):
         if ok2:
             ok, off = True, None
             n = max(n, 1)
+    if ok and n == 0:
+        # no switch on the Option itself (`RecoverSelection::from(selected_packets).is_forced()`): the requirement is
+        # still conditional on selected_packets if, evaluated in the world selected_packets = None, the same handler
+        # succeeds without the admin check
+        w_none = hctx.assume_ok(selected_packets_pred, False).settle()
+        if not guarded(w_none, admin_guard(prog, "staking"), prog, env.depth, [])[0]:
+            n = 1
     R.ob(rule, "RecoverPendingIbcTransfers:forced=>admin", ok, "in the world selected_packets=Some a success exit is reachable without assert_admin: %s" % (off,), loc=off["loc"] if off else None, fn=hk, found=found)
     R.floor(rule, "tests of selected_packets in recover", n, 1)
     # the non-forced world must remain open to everyone (no false claim): it has a success exit
